@@ -485,6 +485,10 @@ def constrained():
         out.append((dict(rec5, violating=[{'b': True}, {'a': 9, 'b': True}, {'a': 0, 'b': False}]), {'a': 3, 'b': True}))
     rec3 = T('SET', fields=[('a', T('INTEGER'), 'opt'), ('b', T('BOOLEAN', [('I', CTX, 0)]), 'opt')], absent=['b'])
     out.append((dict(rec3, violating=[{'b': True}, {'a': 1, 'b': False}]), {'a': 1}))
+    # ... also when it is spelled as a set with one operand, `a ((1..5))`: a set of value constraints is a value constraint
+    rec7 = T('SEQUENCE', fields=[('a', T('INTEGER'), 'opt'), ('b', T('BOOLEAN'), 'req')], within_and={'a': (1, 5)})
+    out.append((dict(rec7, violating=[{'a': 9, 'b': True}]), {'b': True}))
+    out.append((dict(rec7, violating=[{'a': 0, 'b': True}]), {'a': 3, 'b': False}))
     # ABSENT on a DEFAULT member: the member takes its default value by being left out
     rec6 = T('SEQUENCE', fields=[('d', T('INTEGER'), ('default', 5)), ('b', T('INTEGER', [('I', CTX, 0)]), 'req')], absent=['d'])
     out.append((dict(rec6, violating=[{'d': 7, 'b': 1}]), {'b': 1}))
